@@ -149,7 +149,8 @@ def check_engines(ctx, c):
     ctx.note(c, is_nontrivial(model, flags, dxu, dxm),
              flags_classes(model, flags, dxu) + ["engine:" + kind, "space:" + spec["space"]["type"]])
     system = sut_call("build_system", B.build_system, spec, c["route"])
-    dt = stable_dt(model, x, dxu, sc)
+    from vlib.ratelaw import tame_dt
+    dt = F(tame_dt(model, flags))
     U = c["out"]
     script = sut_call("RDScript", S.RDScript, system, [0], time_step=float(dt / si.TIME[U["time"]]),
                       t_max=float(dt * 10 ** 6 / si.TIME[U["time"]]), sampling_policy="on_iteration",
